@@ -612,6 +612,10 @@ fn tagged(v: Yaml) -> Yaml {
 
 fn example(r: &mut Rng) -> Yaml {
     if r.chance(6) {
+        // strings whose TEXT looks like a document: still not a mapping
+        return gen::ys(*r.pick(&["foo: bar", "{\"foo\": \"bar\"}", "", "{}", "s: a", "a: 1", "- x", "[]", "s: a\nn: 1", "~"]));
+    }
+    if r.chance(6) {
         // a long example full of multi-byte characters (its rendering in an error message is long)
         let unit = *r.pick(&["é", "日本", "aé", "€x", "𝄞"]);
         let pad = r.below(3);
@@ -778,6 +782,10 @@ fn c16_fixed_pairs(ctx: &mut Ctx) {
         ("conns:\n      dst.ip: 10.0.0.1\n      dst.port: 443", vec!["A", "not A"]),
         ("conns:\n      args[0]: a\n      args[1]: b", vec!["A", "not A"]),
         ("conns:\n      dst.ip: 10.0.0.1\n      dst.port: 443\n      dst.zone: dmz\n    host: ws1", vec!["A", "not A"]),
+        // a block over a field that holds an OBJECT: its own keys are asked, never its members' members
+        ("procs:\n      name: evil.exe\n      pid: 4", vec!["A", "not A"]),
+        ("cmd:\n      argv[2]: lsass.dmp", vec!["A", "not A"]),
+        ("proc.args[0]: mimikatz.exe", vec!["A", "not A"]),
     ];
     let pairs = [
         ("{proc: {}}", "{proc: {pid: 1}}"),
@@ -805,6 +813,13 @@ fn c16_fixed_pairs(ctx: &mut Ctx) {
         ("{conns: [{dst: {ip: 10.0.0.1, port: 80}}]}", "{conns: [{dst: {ip: 10.0.0.1, port: 80}, proto: tcp, x: 1, y: 2}]}"),
         ("{conns: [{dst: {ip: 10.0.0.1, port: 443, zone: dmz}}], host: ws1}", "{conns: [{dst: {ip: 10.0.0.1, port: 443, zone: dmz}, a: 1, b: 2, c: 3}], host: ws1}"),
         ("{conns: [{x: 1}, {dst: {ip: 10.0.0.1, port: 443}}]}", "{conns: [{x: 1, y: 2, z: 3}, {dst: {ip: 10.0.0.1, port: 443}}]}"),
+        ("{procs: {count: 1}}", "{procs: {count: 1, p1: {name: evil.exe, pid: 4}}}"),
+        ("{procs: {name: evil.exe}}", "{procs: {name: evil.exe, p1: {name: evil.exe, pid: 4}, p2: {pid: 4}}}"),
+        ("{procs: {}}", "{procs: {a: {b: {name: evil.exe, pid: 4}}}}"),
+        ("{args: {raw: x}}", "{args: {raw: x, '1': x}}"),
+        ("{proc: {args: {n: 1}}}", "{proc: {args: {n: 1, '0': mimikatz.exe}}}"),
+        ("{cmd: {argv: {}}}", "{cmd: {argv: {'2': lsass.dmp}}}"),
+        ("{cmd: {argv: [a, b]}}", "{cmd: {argv: [a, b], 'argv[2]': lsass.dmp}}"),
     ];
     for (body, conds) in rules.iter() {
         for cond in conds {
